@@ -23,4 +23,4 @@ pub use ast::{normalize, Axis, BinOp, Expr, NodeTest, PathExpr, PathStart, Step}
 pub use eval::{eval, eval_root, static_check, Env, EvalError, Value};
 pub use parse::parse;
 pub use spell::{spell, spell_full, spell_min, Choices};
-pub use tree::{to_xml, Kind, TreeBuilder, XNode, XTree, XML_NS};
+pub use tree::{to_xml, to_xml_edited, Edit, Kind, TreeBuilder, XNode, XTree, XML_NS};
